@@ -626,7 +626,8 @@ func c01Paths(r *rng, ms []c01Method, n int) []string {
 
 func c01ReqVerb(r *rng, ms []c01Method) string {
 	if r.intn(4) == 0 {
-		return r.picks([]string{"GET", "POST", "PUT", "DELETE", "PATCH", "LIST", "HEAD"})
+		// (HTTP methods are case-sensitive tokens: "get" is not GET)
+		return r.picks([]string{"GET", "POST", "PUT", "DELETE", "PATCH", "LIST", "HEAD", "get", "Get", "post", "patch", "list", "Delete"})
 	}
 	m := ms[r.intn(len(ms))]
 	if len(m.Bindings) == 0 {
